@@ -82,6 +82,7 @@ type shape struct {
 	DenyGetPay bool        `json:"denygetpayload"`
 	MPFiles    []mpFile    `json:"mpfiles,omitempty"`
 	MPBoundary string      `json:"mpboundary,omitempty"`
+	Chunked    bool        `json:"chunked,omitempty"` // EnableForceChunkedEncoding (multipart written into a pipe)
 }
 
 type mpFile struct {
@@ -112,6 +113,7 @@ type wireObs struct {
 	HasBody bool                `json:"hasbody"`
 	Body    string              `json:"body"`
 	CLen    int64               `json:"clen"`
+	BodyErr bool                `json:"bodyerr,omitempty"` // reading the body ended with an error
 }
 
 type callObs struct {
@@ -241,9 +243,9 @@ func execute(p *program) (o observation) {
 				w.Cookies = append(w.Cookies, [2]string{ck.Name, ck.Value})
 			}
 			if q.Body != nil {
-				b, _ := io.ReadAll(q.Body)
+				b, rerr := io.ReadAll(q.Body)
 				q.Body.Close()
-				w.HasBody, w.Body = true, string(b)
+				w.HasBody, w.Body, w.BodyErr = true, string(b), rerr != nil
 			}
 			o.Wires = append(o.Wires, w)
 			var oc outcome
@@ -395,6 +397,9 @@ func execute(p *program) (o observation) {
 		r.SetBody(io.NopCloser(strings.NewReader(sh.Body)))
 	case "multipart":
 		r.EnableForceMultipart()
+		if sh.Chunked {
+			r.EnableForceChunkedEncoding()
+		}
 		for _, f := range sh.MPFiles {
 			switch f.Kind {
 			case "reader":
@@ -403,6 +408,12 @@ func execute(p *program) (o observation) {
 				r.SetFileReader(f.Param, f.Name, bytes.NewBufferString(f.Content))
 			case "seekcloser":
 				r.SetFileReader(f.Param, f.Name, nopSeekCloser{strings.NewReader(f.Content)})
+			case "customseek": // the caller's own FileUpload: the same seekable reader on every call
+				rd := nopSeekCloser{strings.NewReader(f.Content)}
+				r.SetFileUpload(req.FileUpload{ParamName: f.Param, FileName: f.Name, GetFileContent: func() (io.ReadCloser, error) { return rd, nil }})
+			case "customplain": // the caller's own FileUpload: the same plain reader on every call
+				rd := io.NopCloser(bytes.NewBufferString(f.Content))
+				r.SetFileUpload(req.FileUpload{ParamName: f.Param, FileName: f.Name, GetFileContent: func() (io.ReadCloser, error) { return rd, nil }})
 			case "path":
 				r.SetFile(f.Param, uploadPath(f))
 			case "osfile":
@@ -518,6 +529,16 @@ func outcomeView(oc outcome) (st int, ec int, cancelled bool) {
 }
 
 func (p *program) unreplayable() bool {
+	if p.Shape.BodyKind == "multipart" {
+		// SetFileReader with a reader that is not an io.Seeker, or with an *os.File (closed
+		// after the first upload): can be uploaded only once
+		for _, f := range p.Shape.MPFiles {
+			if f.Kind == "buffer" || f.Kind == "osfile" {
+				return true
+			}
+		}
+		return false
+	}
 	return p.Shape.BodyKind == "reader" || p.Shape.BodyKind == "readcloser"
 }
 
@@ -555,17 +576,16 @@ func canonWire(w wireObs, mask map[[2]string]bool) string {
 	return sb.String()
 }
 
-// unreplayedUploads: (param, filename) of multipart file sources given as an io.Reader that the
-// request does not rewind between attempts (strings.Reader and bytes.Buffer get wrapped in
-// io.NopCloser, which hides Seek; an *os.File is closed after the first attempt).
+// unreplayedUploads: (param, filename) of multipart file sources whose caller-supplied
+// GetFileContent hands out the same plain reader on every call: nothing the request could
+// rewind; what such a source yields on a retry is the caller's business (interpretation (g)).
 func (p *program) unreplayedUploads() map[[2]string]bool {
 	m := map[[2]string]bool{}
 	if p.Shape.BodyKind != "multipart" {
 		return m
 	}
 	for _, f := range p.Shape.MPFiles {
-		switch f.Kind {
-		case "buffer", "osfile":
+		if f.Kind == "customplain" {
 			m[[2]string{f.Param, f.Name}] = true
 		}
 	}
@@ -676,12 +696,6 @@ func oracle(r *hk.Run, p *program, o *observation) {
 			wantIvals = append(wantIvals, callObs{e.Interval, k + 1, st, ec})
 		}
 	}
-	if n == 1 && want >= 2 && o.Attempt == 1 && len(p.unreplayedUploads()) > 0 && !p.payloadForbidden() {
-		// a multipart file from a reader that cannot be rewound: the request is not refused up
-		// front; the first attempt is sent and the retry is then refused (nothing partial is sent)
-		fail("unreplayable:upload-ends-retries", "multipart upload from a reader that cannot be rewound is not refused up front: the retry is abandoned after the first attempt", map[string]interface{}{"attempts": n, "err": o.ErrText}, "refusal before anything is sent")
-		return
-	}
 	if n != want {
 		fail(fmt.Sprintf("attempts:count:%s", cmpWord(n, want)), "number of attempts differs from: retry iff not cancelled, count not exhausted and the conditions (default: an error occurred) ask for it",
 			n, want)
@@ -713,8 +727,9 @@ func oracle(r *hk.Run, p *program, o *observation) {
 			if ck := canonWire(o.Wires[k], nil); ck != first {
 				sg := "identical:" + diffField(o.Wires[0], o.Wires[k])
 				if len(mask) > 0 && canonWireNoLen(o.Wires[k], mask) == canonWireNoLen(o.Wires[0], mask) {
-					// the only difference is in file parts fed from a reader the request cannot rewind
-					sg = "identical:upload-source-not-replayed"
+					// the only difference is in file parts fed from the caller's own shared plain reader
+					r.Count("accepted.caller-reader-drained")
+					continue
 				}
 				fail(sg, fmt.Sprintf("attempt %d does not send the same request as attempt 0", k), ck, first)
 				break
